@@ -152,7 +152,8 @@ def main(tier):
                          {'id': 'x', 'cmd': 'list', 'dir': d_noadm, 'exposure': True, 'want_out': True},
                          {'id': 'd', 'cmd': 'diff', 'dir': d_all, 'dir2': seed_dir, 'want_out': True},
                          {'id': 'e', 'cmd': 'eval', 'dir': d_all, 'mode': 'insert', 'queries': [[NS + '/pod1', NS + '/pod1x', 'tcp', '80'], ['10.1.2.3', NS + '/pod1', 'udp', '53'], [NS + '/pod1', '8.8.8.8', 'tcp', '80']]},
-                         {'id': 'o', 'cmd': 'eval', 'dir': d_all, 'mode': 'objects', 'queries': [[NS + '/dep-1', NS + '/sts-1', 'tcp', '80'], [NS + '/pod1', NS + '/dep-2', 'TCP', '85']]}]
+                         {'id': 'o', 'cmd': 'eval', 'dir': d_all, 'mode': 'objects', 'queries': [[NS + '/dep-1', NS + '/sts-1', 'tcp', '80'], [NS + '/pod1', NS + '/dep-2', 'TCP', '85'],
+                                                                                               [NS + '/sts-1', NS + '/dep-1', 'tcp', '85'], [NS + '/sts-1', NS + '/dep-2', 'sctp', '9']]}]
             outs = h.run(cmds, timeout=3000)
             for j, (group, di, p, op, m) in enumerate(chunk):
                 o5 = outs[5 * j: 5 * j + 5]
